@@ -26,6 +26,10 @@ Definition model_content (c : case) : res ccas :=
   do lc <- load_xmi (flt_of c) (c_schema c) false (c_doc c) ;; canon_loaded (c_schema c) lc.
 Definition denoted_content (c : case) : res ccas :=
   res_map with_initial (denote_xmi (flt_of c) (c_schema c) (c_doc c)).
-Definition check_case (c : case) : bool := same_as_obs c (model_content c) && same_as_obs c (denoted_content c).
-(* premises of C05_load_xmi_is_denotation_general (documents with or without an _InitialView sofa) *)
-Definition premises (c : case) : bool := reader_okb0 (flt_of c) (c_schema c) (c_doc c).
+(* C05_load_xmi_total on the case: a document satisfying both premises is loaded by the model *)
+Definition check_total (c : case) : bool :=
+  negb (reader_okb0 (flt_of c) (c_schema c) (c_doc c) && total_okb (c_schema c) (c_doc c))
+  || match load_xmi (flt_of c) (c_schema c) false (c_doc c) with Ok _ => true | _ => false end.
+Definition check_case (c : case) : bool := same_as_obs c (model_content c) && same_as_obs c (denoted_content c) && check_total c.
+(* premises of C05_load_xmi_total (documents with or without an _InitialView sofa) *)
+Definition premises (c : case) : bool := reader_okb0 (flt_of c) (c_schema c) (c_doc c) && total_okb (c_schema c) (c_doc c).
